@@ -94,3 +94,21 @@ Definition dist_reproduced_tol_b (n d : nat) (tol : Qc)
 (* ascending order of a reference spectrum and "the selected ones are the top d" *)
 Definition ascending (n : nat) (lam : vec Qc) : Prop :=
   forall a b, a <= b -> b < n -> (lam a <= lam b)%Qc.
+
+(* ---------------- clamping at zero (Qc) ----------------
+   The best positive semi-definite rank-d approximation keeps max(lambda, 0): an eigenvalue
+   that is negative (non-Euclidean dissimilarities, or a zero eigenvalue that rounding made
+   -1e-17) contributes nothing.  The methods compute sqrt(max(lambda, 0)). *)
+Definition qmax0 (x : Qc) : Qc := if qleb (Q2Qc 0) x then x else Q2Qc 0.
+Definition clamp0 (lam : vec Qc) : vec Qc := fun c => qmax0 (lam c).
+
+(* the mathematical object, executably: J M J by two matrix products (memoised) *)
+Definition jmj_exec (n : nat) (L : list (list Qc)) : list (list Qc) :=
+  let MJ := mtab n n (mmul n (mof L) (Jn n)) in
+  mtab n n (mmul n (Jn n) (mof MJ)).
+(* -1/2 J D2 J from a (symmetric) table of distances *)
+Definition spec_mds_exec (n : nat) (L : list (list Qc)) : list (list Qc) :=
+  let D2 := mtab n n (fun i j => (mof L i j * mof L i j)%Qc) in
+  let C := jmj_exec n D2 in
+  mtab n n (fun i j => (mof C i j * - (1 / two))%F).
+Definition spec_kpca_exec (n : nat) (L : list (list Qc)) : list (list Qc) := jmj_exec n L.
